@@ -72,4 +72,9 @@ class StreamBoard(Board):
         r._R[M.RName.PC] = pc
         data = (w >> 16).to_bytes(2, 'little') + (w & 0xFFFF).to_bytes(2, 'little') if thumb else w.to_bytes(4, 'little')
         M.poke(arm, pc, data)
+        self.after_poke(ci)
         return super().step_core(ci)
+
+    def after_poke(self, ci):
+        """hook: the word of this tick is in memory, nothing has executed yet"""
+        pass
